@@ -413,6 +413,18 @@ class FlattenProbe(Probe):
         return fails
 
 
+def listed_nodes(struct):
+    """all nodes below a composite in pre-order (each structure in its listing order, a composite before its content);
+    siblings keep the relative order of their structure's listing."""
+    a = progs.api()
+    out = []
+    for o in graph_nodes(struct):
+        out.append(o)
+        if isinstance(o, a.CircuitCompositeOperation):
+            out.extend(listed_nodes(o))
+    return out
+
+
 def positional_refs(struct):
     """for each expanded leaf: (relation type, index of the referenced leaf in the expansion | 'C<k>' for the k-th
     composite | None | 'ext')."""
@@ -485,8 +497,18 @@ class CopyProbe(Probe):
                     if x[1] == 'ext' or (k >= len(lo) and x[1] is None):
                         continue     # outside relation of the copied circuit itself: documented as dropped
                     if x != y:
-                        fails.append({'what': 'an internal relation of the copy is not the re-pointed original relation',
-                                      'pos': k, 'orig': repr(x), 'copy': repr(y)})
+                        fl = {'what': 'an internal relation of the copy is not the re-pointed original relation',
+                              'pos': k, 'orig': repr(x), 'copy': repr(y)}
+                        # signature of finding R24: a group relation whose copy has fewer members because a member
+                        # is listed after the operation that refers to it (not yet in the transfer lookup)
+                        lko, lkc = (lo + co)[k].relation_link, (lc + cc)[k].relation_link
+                        mo, mc = getattr(lko, '_reference_nodes', None), getattr(lkc, '_reference_nodes', None)
+                        if isinstance(lko, a.MultiRelationLink) and mo is not None and mc is not None and len(mc) < len(mo):
+                            order = {id(o): n for n, o in enumerate(listed_nodes(orig))}
+                            me = order.get(id((lo + co)[k]))
+                            if me is not None and any(order.get(id(m), -1) > me for m in mo):
+                                fl['group_ref_dropped'] = True
+                        fails.append(fl)
                         break
                 else:
                     try:
